@@ -92,6 +92,10 @@ impl Property for C11 {
         }
     }
 
+    fn post(&self, tier: Tier, seed: u64, stats: &mut crate::engine::Stats) -> Result<(), (String, String, Vec<u8>)> {
+        crate::exhaust::bounded_enumeration(self, tier, seed, stats)
+    }
+
     fn run(&self, src: &mut Src, rep: &mut Report) -> Verdict {
         let float = src.chance(160);
         let g = if float { G::F(Gauge::new("g", "h").unwrap()) } else { G::I(IntGauge::new("g", "h").unwrap()) };
